@@ -321,6 +321,13 @@ def fixed_corpus():
     # a pattern that needs a terminator after a run over a class open at the top (or bottom): a truncated run is one error
     out.append(Def([L('regex', '(?-u)[\\x80-\\xff]*[\\x00-\\x7f]'), ], utf8=False, origin='fixed:bytes-varint'))
     out.append(Def([L('regex', '(?-u)[\\x00-\\x20]*[\\x41-\\x5a]'), L('regex', '(?-u)[^"]*"', prio=1)], utf8=False, origin='fixed:bytes-openrange'))
+    # long literals that share nothing with the other patterns (chains of single-byte, single-edge states longer than a chunk)
+    out.append(Def([L('token', '<!DOCTYPE html>'), L('token', '<!--'), L('regex', '[a-z]+'), L('token', 'synchronized_block'), L('skip', ' ')], origin='fixed:long-literals'))
+    # byte classes with a one-byte hole, on a non-self edge of a state with few edges (rendered as a range test plus an excluded
+    # byte): the hole next to the bottom, in the middle and next to the top of the range, str and byte mode
+    out.append(Def([L('regex', "'[[:ascii:]&&[^']]'"), L('regex', '[a-z]+')], origin='fixed:hole-ascii'))
+    out.append(Def([L('regex', 'x[\\x00-\\x7f&&[^\\x01]]y'), L('regex', 'q[\\x00-\\x7f&&[^\\x7e]]'), L('regex', '<[\\x01-\\x7f&&[^\\x02]]>')], origin='fixed:hole-edges'))
+    out.append(Def([L('regex', '(?-u)x[^a]y'), L('regex', '(?-u)q[^\\x01]r'), L('regex', '(?-u)<[^\\x80]>'), L('regex', '(?-u)=[^\\xfe]')], utf8=False, origin='fixed:hole-bytes'))
     # the same text matched by two patterns, one of them only in some contexts, at different priorities
     out.append(Def([L('regex', '[a-z]+'), L('regex', 'end$', prio=100), L('token', 'a', prio=3), L('regex', 'a(?-u:\\b)', prio=10), L('skip', ' ')],
                    origin='fixed:look-prio'))
